@@ -21,7 +21,7 @@ CHECKS.update({
     "C01": (True, "exploration", "SimCluster over the real ingest/sync code with seeded histories and delivery schedules; oracles: pairwise digests, reference merge, value provenance",
             "Runtime monitor: 2-4 real nodes (real setup(), SQLite, cr-sqlite, QUIC sync) whose broadcast chunks the harness captures and delivers under a seeded hostile schedule (reorder, duplicate, drop, re-chunk, batch, relay), then real sync sessions over all ordered pairs until a fixpoint (bounded: N+3 rounds). After the fixpoint every node's tables and per-cell (col_version, cl) must equal each other and a reference merge of the complete change lists, and every visible value must stem from an acknowledged transaction.",
             "§3-C01", "bounded liveness restatement (fixpoint within N+3 rounds); known finding F15 recorded in known_findings.json"),
-    "C09": (True, "exploration", "round-trip and differential oracles over the real codecs + hostile-bytes decoding in RLIMIT'd child processes with a counting allocator",
+    "C09": (True, "exploration", "round-trip and differential oracles over the real codecs + hostile-bytes decoding in RLIMIT'd child processes with a counting allocator + Miri (undefined-behaviour interpreter) over the pure-Rust decode/pack/chunk/need/member paths + valgrind memcheck over the decode child",
             "Runtime monitor: every protocol type/variant is encoded, decoded by the real entry points and re-encoded (byte equality, value equality for HashMap-bearing states); pack_columns is compared byte-for-byte with the loaded extension's crsql_pack_columns and round-tripped through unpack_columns; structure-aware hostile inputs (tags, 32/64-bit length attacks, truncations, splices, UTF-8 damage, random) are decoded in child processes where panics, signals, aborts, allocation beyond 64*len+64KiB and invalid UTF-8 text are observed.",
             "§3-C09", "inputs up to ~2 MiB executed; allocation bound is the stated reading of 'memory unrelated to the input size'"),
     "C18": (True, "exploration", "reference fold-by-newest-identity + ring model compared with the real Members after every step (small-scope complete + seeded random)",
@@ -128,7 +128,7 @@ def main():
             na.append({"property_id": pid, "reason": NOT_YET.get(pid, "check not built yet in this round; the design for it is in DESIGN.md §3 and it stays unclaimed until its monitor exists and is silent on the unchanged tree")})
     manifest = {
         "version": 1,
-        "setup_cmd": "cd /verif/harness && CARGO_NET_OFFLINE=true CARGO_TARGET_DIR=/verif/target cargo build --offline",
+        "setup_cmd": "cd /verif/harness && CARGO_NET_OFFLINE=true CARGO_TARGET_DIR=/verif/target cargo build --offline && cd /verif/miri && CARGO_NET_OFFLINE=true MIRIFLAGS=-Zmiri-disable-isolation cargo +nightly miri run -q -- 1 0",
         "hooks": {
             "guard": "cargo feature verif-hooks (klukai-types, klukai-agent, klukai)",
             "enable": "the harness crate /verif/harness depends on /repo/crates/klukai-{types,agent} by path with features=[\"verif-hooks\"]; the corrosion binary is built with `cargo build -p klukai --features verif-hooks`",
